@@ -1791,6 +1791,16 @@ def subscript(ctx, base, idx):
             r = h(ctx, base, idx)
             if r is not None:
                 return r
+        if isinstance(base, (list, tuple)) and len(base) > 64 and all(isinstance(x, str) for x in base):
+            # large constant table of words: opaque entry W(idx), injective iff the entries are pairwise distinct
+            n = len(base)
+            if not ctx.branch(land(idx >= 0, idx < n)):
+                if ctx.branch(land(idx >= -n, idx < 0)):
+                    idx = idx + n
+                else:
+                    raise PyRaise(IndexError)
+            f = z3.Function(f"WORD_{n}_{abs(hash(tuple(base))) % 10 ** 8}", z3.IntSort(), PStr)
+            return SStr([OStr(f(idx), "word", inj=("word", n, idx) if len(set(base)) == n else None)])
         if isinstance(base, str) and len(set(base)) == len(base) and len(base) > 1:
             from .seqs import Table, ZChar
             n = len(base)
